@@ -17,7 +17,7 @@ func extraEngineFor(prop string, t *testing.T) Engine {
 	case "C11":
 		return multiEngine{engines: map[string]Engine{"scan": scanEngine{t}, "seq": seqEngine{}}, order: []string{"scan", "seq"}, weights: []int{3, 1}}
 	case "C15":
-		return multiEngine{engines: map[string]Engine{"space": spaceEngine{}, "xfs": xfsEngine{"C15"}}, order: []string{"space", "xfs"}, weights: []int{4, 1}}
+		return multiEngine{engines: map[string]Engine{"space": spaceEngine{}, "xfs": xfsEngine{"C15"}, "bgspace": bgSpaceEngine{t}}, order: []string{"space", "xfs", "bgspace"}, weights: []int{4, 1, 2}}
 	case "C13":
 		return lockEngine{t}
 	case "C14":
